@@ -26,10 +26,15 @@ TNext ==
     /\ LET o == Rec[l] IN
        IF o.op = "reset"
        THEN m' = MInit(o) /\ nbad' = nbad
-       ELSE LET F == Failed(m, o) \ m.reported IN
-            /\ \A p \in F : Report(p, l)
-            /\ m' = [Step(m, o) EXCEPT !.reported = m.reported \cup F]
-            /\ nbad' = nbad + Cardinality(F)
+       ELSE LET F == Failed(m, o) \ m.reported
+                \* named deviations (known findings) are reported every time and do not mask
+                \* later rejections of the same property in the same trace
+                K == IF m.cfg.mech = "lt" THEN {f \in WhyC08(m, o) : IsKnownDeviation(f)} ELSE {}
+            IN /\ \A p \in F : Report(p, l)
+               /\ \A f \in K : PrintT(<<"BAD", "C08", l, Rec[l].tr, f>>)
+               /\ (("C08" \in F) => \A f \in WhyC08(m, o) : PrintT(<<"WHY", "C08", l, f>>))
+               /\ m' = [Step(m, o) EXCEPT !.reported = m.reported \cup F]
+               /\ nbad' = nbad + Cardinality(F)
 
 TSpec == TInit /\ [][TNext]_vars
 
